@@ -6,7 +6,7 @@ from pathsum import ERR, OK, show_term
 
 RERUN_ON_CONFIGS = ("dfm", "std")
 LEVEL = "proof"
-RULE_TEXT = ("C10-T: obligations over the HIR and the path summaries of the single generic body "
+RULE_TEXT = ("C10-C04W: the shipped writers - the response buffer of process is one - append exactly what they are given or fail, and on no path remove or overwrite what they hold (rule C04-W). C10-T: obligations over the HIR and the path summaries of the single generic body "
              "Interface::process<N, A> (holds for every N, adapter, stream, chunking and fault position): "
              "T1 every Adapter call is `.await?` with identity error conversion; T2 every function exit is the "
              "residual of such a call (no Ok, no break/return, no panic exit); T3 nothing follows the failing call; "
@@ -168,6 +168,10 @@ def run(ck):
     import c04
     with ck.under("C04-", "C10-C04"):
         c04.rule_X(ck, lib)
+        # the response buffer of process is one of the shipped writers: what an earlier unit of the message has put there
+        # is still there when the message is answered - a writer method appends or fails, it never takes anything away
+        # (seeded C10-Z: the heapless writer clearing itself on overflow; process then finds nothing to send and reads on)
+        c04.rule_W(ck, lib)
     # no message is lost between reads (it could then never be answered): the buffer discipline of process (K-rules of C07)
     import c07
     c07.rule_K(ck, lib, "C10-K")
